@@ -11,6 +11,7 @@ from symtorch.scalar import PathAbort, _bool, _int, _real, is_sym, s_and, s_eq, 
 
 from . import core
 from . import envs as EV
+from . import envs_sel as _SEL  # noqa: F401  (registers the selection environments)
 from .oracle import all_, any_
 
 MARGIN_VAR = z3.Real("margin!")
@@ -109,7 +110,7 @@ def witness_model(E, inst):
 
 
 def episode_job(job_id, spec, variant, n, B, mode, source_filter=None, nsteps=None):
-    """mode in {'C01','C02','C03'}"""
+    """mode in {'C01','C02','C03','C08'}"""
     sp = EV.SPECS[spec]
     E = explore.EXP
     ctx = core.Ctx(job_id)
@@ -164,6 +165,7 @@ def episode_job(job_id, spec, variant, n, B, mode, source_filter=None, nsteps=No
                 orcs[b].step(sts[b], a[b], s_not(done[b]), t)
             acts.append(a)
             prev_done = done
+            done_prev_rows = done
             td.set("action", T.Tensor(a, T.int64))
             try:
                 td = env.step(td)["next"]
@@ -177,8 +179,19 @@ def episode_job(job_id, spec, variant, n, B, mode, source_filter=None, nsteps=No
                 obs = E.obligations
                 E.obligations = []
                 ctx.prove(E, f"{spec}[{variant}] t={t}: library preconditions ({len(obs)}: {obs[0][0]}, ...)", z3.And(*[c for _, c in obs]), cex_builder)
+            if mode == "C08" and hasattr(sp, "bookkeeping"):
+                for b in range(B):
+                    for nm, cond in sp.bookkeeping(td, orcs[b], sts[b], b, n):
+                        ctx.prove(E, f"{spec}[{variant}] after step {t} row{b}: {nm}", s_or(done_prev_rows[b], cond), cex_builder)
         # ---- all rows finished on this path
-        if mode == "C01":
+        if mode == "C08" and "chosen" in td.keys():
+            for b in range(B):
+                cnt = 0
+                for x in td["chosen"].a[b]:
+                    cnt = T.s_add(cnt, s_where(x, 1, 0))
+                ctx.prove(E, f"{spec}[{variant}] row{b}: the environment's own selection holds exactly the quota of items when the batch is finished",
+                          T.s_eq(cnt, inst.rows[b]["k"]), cex_builder)
+        if mode in ("C01", "C08"):
             for b in range(B):
                 ctx.prove(E, f"{spec}[{variant}] row{b}: solution complete when the environment reports done", orcs[b].complete(sts[b]), cex_builder)
                 for name, v in sts[b].viol.items():
@@ -268,7 +281,7 @@ def independence_job(job_id, spec, variant, n, B, pos, source_filter=None):
                 if E.branch(done[pos]):
                     solo_done_concrete = True
                     solo_len = len(acts)
-                    if acts:
+                    if acts and sp.has_reward:
                         A1 = T.Tensor([[a[pos] for a in acts]], T.int64)
                         try:
                             solo_rew = env1.get_reward(td1, A1).a.reshape(-1)[0]
@@ -299,6 +312,10 @@ def independence_job(job_id, spec, variant, n, B, pos, source_filter=None):
                 raise PathAbort()
             ctx.transitions += 1
             E.obligations = []
+        if len(ctx.witness) < 1:
+            wm = witness_model(E, inst)
+            if wm is not None:
+                ctx.witness.append(dict(model_replay(sp, n, variant, inst, acts, B, wm), mode="witness"))
         if not solo_done_concrete or solo_rew is None:
             return
         A = T.Tensor([[acts[t][b] for t in range(len(acts))] for b in range(B)], T.int64)
